@@ -117,8 +117,10 @@ def _run(ctx, pq):
                 "timestamps of units s..ns with/without fractions, text incl. numeric-looking/True/nan/now/empty/unicode) -> path text; "
                 "B: (metadata kind, text) pairs over adversarial texts -> val_from_meta; C: texts -> _val_to_num; "
                 "D: ordered directory lists (hive/drill/mixed/malformed) -> _path_to_cats/paths_to_cats; "
-                "E: frames with 1..3 partition columns of every kind (NULL keys, unused categories, repeated and empty combinations), "
-                "every row_group_offsets form, hive and drill: write, walk the tree, read every file, read the dataset. "
+                "E: the corpus of past failures, then frames with 1..3 partition columns of every kind (int8..uint64, bool, float32/64, "
+                "datetime64[s..ns], text incl. numeric-looking, categorical, nullable Int/UInt/boolean/Float, string/str, tz-aware datetimes; "
+                "NULL keys, unused categories, repeated and empty combinations, odd column names), "
+                "every row_group_offsets form, hive and drill: write, walk the tree, read every file, read the dataset (forked workers). "
                 "Trivial: frames with no row having all keys non-null; distinct = distinct case data")
 
     # ---------------------------------------------------------------- A: path_string / "%s" % val
